@@ -216,7 +216,10 @@ func (cuckooFilter *CuckooFilter) Import(data []byte) error {
 		bucketJSON := f.Buckets[i]
 		bucket := *newBucketMem(f.BucketSize)
 		for j := range bucketJSON.Elements {
-			bucket.add(bucketJSON.Elements[j])
+			if uint64(j) < f.BucketSize && bucketJSON.Elements[j] != "" {
+				bucket.set(uint64(j), bucketJSON.Elements[j])
+				bucket.length++
+			}
 		}
 		filters[i] = bucket
 	}
